@@ -4,11 +4,13 @@ import vlib, simcommon
 PROP = "C15"
 PROPS_FILE = "props/C15.v"
 COQ_FILES = ["gen/Gen.v", "proofs/SnaProofs.v", "model/Sender.v", "proofs/SenderProofs.v", "model/StreamW.v",
-             "proofs/StreamWProofs.v", "props/C15.v"]
+             "proofs/StreamWProofs.v", "model/BufLow.v", "proofs/BufLowProofs.v", "props/C15.v"]
 TRUSTED_BASE = [
     "Coq 8.16.1 kernel; vm_compute only in Examples; no native_compute",
     "hand-written models coq/model/Sender.v (Stream.packetize / onBufferReleased, processSelectiveAck byte accounting, markAsAcked) "
     "and coq/model/StreamW.v (Stream.WriteSCTP incl. the roll-back of a refused write)",
+    "coq/model/BufLow.v (Stream.onBufferReleased: clamp and callback decision), compared call by call and history by history with "
+    "the real Stream object (go/inpkg/zz_verif_buflow_test.go, ocaml/cmp_buflow.ml)",
     "extraction (ExtrOcamlBasic) + ocaml/cmp_sender.ml; simulator harness (overlay, synctest, go1.26.8)",
     "modelled, not verified: the callback is invoked after Stream.lock is released (read off stream.go:onBufferReleased; the lock-set "
     "computation of C20 covers it), goroutine scheduling",
@@ -23,8 +25,10 @@ LEVEL_TEXT = ("Coq theorem over all write / gather / SACK (incl. gap-ack then cu
               "histories: per registered stream, bufferedAmount = pending bytes + un-acknowledged in-flight bytes; the in-flight "
               "counter equals the sum of un-acked payloads; the underflow clamp is unreachable; back to zero when drained. Tied to the "
               "code by step-commuting records (per-stream figures compared after every event) and a white-box monitor at quiescent points.")
-LEVEL_NOTE = ("Trusted: Coq kernel, hand model, extraction, simulator. Callback firing condition and lock-freedom are monitored "
-              "(threshold-crossing scenario), not proved.")
+LEVEL_NOTE = ("Trusted: Coq kernel, hand models, extraction, simulator. The callback firing rule is proved on BufLow.v for all "
+              "histories of writes and releases (fires for each downward crossing and only then) and tied to Stream.onBufferReleased by "
+              "a call-by-call differential; that it runs without internal locks is C20's lock-set theorem plus the re-entrant "
+              "callback of the differential and the threshold-crossing scenario.")
 TECHNIQUE = "Coq proof (accounting invariant over histories) + step-commuting correspondence on simulated associations"
 
 
@@ -32,6 +36,7 @@ def correspondence(ctx):
     vlib.differential(ctx, "sender-step-commuting", "TestVerifSimSender", "sender",
                       {"VERIF_N": ctx.scale(40, 1500), "VERIF_EVENTS": 250}, timeout=3000)
     vlib.differential(ctx, "streamw-differential", "TestVerifStreamW", "streamw", {"VERIF_N": ctx.scale(300, 6000)})
+    vlib.differential(ctx, "buflow-differential", "TestVerifBufLow", "buflow", {"VERIF_N": ctx.scale(4000, 200000)})
     simcommon.transfer(ctx)
     # partially reliable traffic: abandoned chunks are released through FORWARD-TSN + cumulative ack
     simcommon.sim_monitor(ctx, "pr-sims-buffered", "TestVerifSimPR", {"VERIF_N": ctx.scale(40, 600)}, "SIMPR")
